@@ -279,6 +279,11 @@ func Between() {
 	defer mu.Unlock()
 	nCalls++
 	k := nCalls
+	// enumerations call this millions of times per process: after the first 4096 calls only
+	// every 32nd one does the work
+	if k > 4096 && k%32 != 0 {
+		return
+	}
 	quiet(func() {
 		// files: three constructors, kept for a while, every call adds a track to each
 		if len(nFiles) == 0 || k%9 == 0 {
